@@ -7,6 +7,7 @@ import (
 	"encoding/json"
 	"fmt"
 	"sort"
+	"strings"
 
 	"github.com/Tom-Johnston/mamba/dawg"
 )
@@ -17,6 +18,9 @@ type searchCase struct {
 	Anagram *string  `json:"anagram,omitempty"`
 	Blank   string   `json:"blank"`
 	Rejects bool     `json:"built_with_rejected_adds,omitempty"`
+	// ViaDecode: the Dawg searched is the result of GobDecode into a receiver that held another word set (with the
+	// empty word) before - "for every Dawg" includes decoded ones
+	ViaDecode bool `json:"decoded_into_used_receiver,omitempty"`
 }
 
 type searchCaseJSON searchCase
@@ -136,6 +140,21 @@ func evalSearch(sc searchCase, d *dawg.Dawg, before string) *Failure {
 			}
 		}); p || err != nil {
 			return mk("build-failed", fmt.Sprint(msg, err))
+		}
+		if sc.ViaDecode {
+			if msg, p := try(func() {
+				var enc []byte
+				enc, err = d.GobEncode()
+				if err != nil {
+					return
+				}
+				r, _ := dawg.New(toBytes([]string{"", "q", "qq"}, false))
+				r.Search()
+				err = r.GobDecode(enc)
+				d = r
+			}); p || err != nil {
+				return mk("build-failed", "decode into a used receiver: "+fmt.Sprint(msg, err))
+			}
 		}
 	}
 	blank := sc.Blank[0]
@@ -354,6 +373,35 @@ func runC13(c *Ctx) {
 			withBlank[len(withBlank)/2] = '?'
 			wideCases = append(wideCases, searchCase{Words: longDict, Anagram: sp(string(withBlank)), Blank: "?"})
 			wideCases = append(wideCases, searchCase{Words: longDict, Anagram: sp(string(o)), Pattern: sp(string(bytesRepeat('?', len(o)))), Blank: "?"})
+		}
+	}
+	// deep automata: words of 30..70 letters (the search keeps a stack entry per letter), searched with no searcher,
+	// with all-blank patterns of the same lengths and with anagram letter lists; and small sets searched after a
+	// decode into a used receiver
+	{
+		rep := func(unit string, k int) string { return strings.Repeat(unit, k) }
+		var deep []string
+		for _, k := range []int{30, 31, 32, 33, 34, 40, 63, 64, 65, 70} {
+			deep = append(deep, rep("a", k))
+		}
+		deep = append(deep, rep("a", 31)+"b", rep("a", 32)+"b", rep("a", 32)+"ba", rep("ab", 16), rep("ab", 17), rep("ab", 20)+"c", rep("b", 33), "b"+rep("a", 35))
+		deep = dedupSorted(deep)
+		wideCases = append(wideCases, searchCase{Words: deep, Blank: "?"})
+		wideCases = append(wideCases, searchCase{Words: []string{rep("a", 32)}, Blank: "?"}, searchCase{Words: []string{rep("a", 31)}, Blank: "?"}, searchCase{Words: []string{"", rep("a", 33), rep("a", 33) + "b"}, Blank: "?"})
+		for _, L := range []int{30, 31, 32, 33, 34, 35, 36, 41, 64, 65, 66} {
+			wideCases = append(wideCases, searchCase{Words: deep, Pattern: sp(rep("?", L)), Blank: "?"})
+			wideCases = append(wideCases, searchCase{Words: deep, Pattern: sp(rep("a", L)), Blank: "?"})
+			wideCases = append(wideCases, searchCase{Words: deep, Anagram: sp(rep("a", L)), Blank: "?"})
+			wideCases = append(wideCases, searchCase{Words: deep, Anagram: sp(rep("a", L-1) + "?"), Blank: "?"})
+			wideCases = append(wideCases, searchCase{Words: deep, Anagram: sp("b" + rep("a", L-1)), Pattern: sp(rep("?", L)), Blank: "?"})
+		}
+		for s := int64(0); s < total; s += 5 {
+			ws := subsetOf(u3, uint64(s))
+			wideCases = append(wideCases, searchCase{Words: ws, Blank: "?", ViaDecode: true})
+			for _, q := range []string{"", "?", "??", "a?"} {
+				wideCases = append(wideCases, searchCase{Words: ws, Pattern: sp(q), Blank: "?", ViaDecode: true})
+				wideCases = append(wideCases, searchCase{Words: ws, Anagram: sp(q), Blank: "?", ViaDecode: true})
+			}
 		}
 	}
 	c.parFor(int64(len(wideCases)), 4, func(lo, hi int64) {
